@@ -508,8 +508,10 @@ impl Net {
 			let w = ws.as_ref().map(|s| &o.script_pubkey == s).unwrap_or(false);
 			json!({"amt": o.value.to_sat(), "wal": w})
 		}).collect();
+		// does it re-spend an output whose spend is already buried? (counted, not judged)
+		let stale = tx.input.iter().any(|i| self.spent.get(&i.previous_output).map(|t| *t != txid && self.conf.get(t).map(|c| *c + 6 <= h + 1).unwrap_or(false)).unwrap_or(false));
 		let repl: Vec<usize> = self.mempool.iter().filter(|m| m.tx.input.iter().any(|i| tx.input.iter().any(|j| j.previous_output == i.previous_output))).map(|m| m.id).collect();
-		self.ev(json!({"ev":"bcast","by":by,"tx":id,"dup":false,"h":h,"kind":kind,"ins":ins,"wal":wal,"outs":outs,"repl":repl,
+		self.ev(json!({"ev":"bcast","by":by,"tx":id,"dup":false,"h":h,"kind":kind,"ins":ins,"wal":wal,"outs":outs,"repl":repl,"stale":stale,
 			"fee":fee,"weight":weight,"feerate":feerate,"pfeerate":pfeerate,"locktime":tx.lock_time.to_consensus_u32(),"valid":valid,"final":fin,"sweep":false}));
 		self.mempool.push(MemTx { tx, txid, id, by, valid, fee, weight, sweep: false });
 	}
